@@ -9,7 +9,7 @@ if sub != "-":
     assert len(c) == 1, (sub, c)
     commit = c[0]
 k = json.load(open('/verif/known_findings.json'))
-k['findings'] = [f for f in k['findings'] if not (f['property'] == prop and f['signature'] == sig)]
+k['findings'] = [f for f in k['findings'] if not (f['property'] == prop and f['signature'] == sig and f.get('commit') == commit)]  # (an earlier repair under the same signature keeps its entry)
 e = {"property": prop, "signature": sig, "status": status, "what": what}
 if commit:
     e["commit"] = commit
